@@ -989,6 +989,10 @@ pub fn run(ctx: &Ctx) -> i32 {
     if ctx.prop == "C16" && !miri {
         hammer(ctx, &sh);
     }
+    // ---- version freshness of CAS values under traffic on other keys
+    if matches!(ctx.prop.as_str(), "C03" | "C01" | "C02") {
+        cas_versions(ctx, &sh);
+    }
     let ev = sh.ev.into_inner().unwrap();
     ev.finish()
 }
@@ -1149,6 +1153,144 @@ fn hammer(ctx: &Ctx, sh: &Shared) {
 
 // ---------------------------------------------------------------------------
 // stress rounds with conservation monitors
+
+/// A few writers each own one key and store value after value on it, one command after the other, while other
+/// threads store to other keys as fast as they can. One-at-a-time semantics make the CAS of an item the name of
+/// exactly one store: a CAS handed out for a key must never have been handed out for an earlier content of that
+/// key, a CAS-store carrying the CAS of an overwritten content must be refused, and a get returns the content
+/// and CAS of the writer's last acknowledged store (the writer is the key's only client).
+fn cas_versions(ctx: &Ctx, sh: &Shared) {
+    let miri = cfg!(miri);
+    let per_writer = if miri { 40 } else { ctx.n(30_000, 300_000) };
+    let (writers, noise) = if miri { (1usize, 2usize) } else { (4usize, 20usize) };
+    let t0 = Instant::now();
+    let cap = Duration::from_secs(if ctx.thorough() { 40 } else { 8 });
+    for policy in [None, Some(1u64 << 40)] {
+        let timer = VirtualTimer::new(100);
+        let inner = Arc::new(MemoryStore::new(timer.clone()));
+        let (pol, top): (Option<Arc<RandomPolicy>>, Arc<dyn Cache + Send + Sync>) = match policy {
+            None => (None, inner.clone()),
+            Some(l) => {
+                let p = Arc::new(RandomPolicy::new(inner.clone(), l));
+                (Some(p.clone()), p)
+            }
+        };
+        let stack = Stack::with_top(timer.clone(), inner, pol, top);
+        let stop = Arc::new(AtomicBool::new(false));
+        let noise_ops = Arc::new(AtomicU64::new(0));
+        let mut hs = vec![];
+        for n in 0..noise {
+            let (memc, stop, noise_ops) = (stack.memc.clone(), stop.clone(), noise_ops.clone());
+            hs.push(std::thread::spawn(move || {
+                let mut conn = Conn::new(memc, 1 << 20);
+                let keys: Vec<Vec<u8>> = (0..3).map(|i| format!("noise{}-{}", n, i).into_bytes()).collect();
+                let mut i = 0u32;
+                while !stop.load(Ordering::Relaxed) {
+                    let k = &keys[(i % 3) as usize];
+                    let f = if i % 7 == 3 { wire::concat(op::APPEND, k, b"x", i, 0) } else { wire::store(op::SET, k, b"n", 0, 0, i, 0) };
+                    let _ = conn.feed(&f.encode());
+                    i = i.wrapping_add(1);
+                    if miri && i > 40 {
+                        break;
+                    }
+                }
+                noise_ops.fetch_add(i as u64, Ordering::Relaxed);
+            }));
+        }
+        let found: Arc<Mutex<Vec<(Viol, serde_json::Value)>>> = Arc::new(Mutex::new(vec![]));
+        let stats: Arc<Mutex<BTreeMap<String, u64>>> = Arc::new(Mutex::new(BTreeMap::new()));
+        let mut ws = vec![];
+        for w in 0..writers {
+            let (memc, found, stats) = (stack.memc.clone(), found.clone(), stats.clone());
+            let seed = ctx.case_seed("casver", w as u64);
+            ws.push(std::thread::spawn(move || {
+                let mut rng = SmallRng::seed_from_u64(seed);
+                let mut conn = Conn::new(memc, 1 << 20);
+                let key = format!("writer{}", w).into_bytes();
+                let mut seen: std::collections::HashMap<u64, u64> = std::collections::HashMap::new();
+                let mut order: Vec<u64> = vec![];
+                let (mut stores, mut stale_refused, mut gets) = (0u64, 0u64, 0u64);
+                let one = |conn: &mut Conn, f: wire::Frame| -> Option<Resp> {
+                    let o = conn.feed(&f.encode());
+                    wire::parse_all(&o.bytes).ok().and_then(|mut v| if v.len() == 1 { v.pop() } else { None })
+                };
+                let report = |sig: &str, msg: String, found: &Mutex<Vec<(Viol, serde_json::Value)>>| {
+                    found.lock().unwrap().push((
+                        Viol::new(&["C03", "C01"], sig, msg.clone()),
+                        json!({"engine":"lin-cas-versions","policy":format!("{:?}",policy),"writer":w,"writers":writers,"noise_threads":noise,"detail":msg}),
+                    ));
+                };
+                for i in 0..per_writer {
+                    if t0.elapsed() > cap {
+                        break;
+                    }
+                    let val = format!("v{}", i).into_bytes();
+                    let r = match one(&mut conn, wire::store(op::SET, &key, &val, 0, 0, i as u32, 0)) {
+                        Some(r) if r.status == st::OK => r,
+                        other => {
+                            report("casver-set-failed", format!("plain set #{} of the key's only writer answered {:?}", i, other.map(|r| r.brief())), &found);
+                            return;
+                        }
+                    };
+                    stores += 1;
+                    if let Some(prev) = seen.insert(r.cas, i) {
+                        report(
+                            "cas-reissued",
+                            format!("store #{} of key writer{} was acknowledged with CAS {}, the CAS store #{} of the same key (a different content) had been acknowledged with; {} noise threads were storing to other keys", i, w, r.cas, prev, noise),
+                            &found,
+                        );
+                        return;
+                    }
+                    order.push(r.cas);
+                    if i % 8 == 5 && order.len() > 2 {
+                        // a CAS-store carrying the CAS of an overwritten content
+                        let back = rng.gen_range(2..=order.len().min(40));
+                        let stale = order[order.len() - back];
+                        match one(&mut conn, wire::store(op::SET, &key, b"stale", 0, 0, i as u32, stale)) {
+                            Some(r) if r.status == st::EXISTS => stale_refused += 1,
+                            other => {
+                                report(
+                                    "stale-cas-accepted",
+                                    format!("CAS-store carrying CAS {} of a content overwritten {} acknowledged stores ago answered {:?} instead of Key exists", stale, back - 1, other.map(|r| r.brief())),
+                                    &found,
+                                );
+                                return;
+                            }
+                        }
+                    }
+                    if i % 16 == 9 {
+                        match one(&mut conn, wire::get(op::GET, &key, i as u32)) {
+                            Some(g) if g.status == st::OK && g.value == val && g.cas == r.cas => gets += 1,
+                            other => {
+                                report("casver-get", format!("get after acknowledged store #{} (CAS {}) of the key's only writer answered {:?}", i, r.cas, other.map(|r| r.brief())), &found);
+                                return;
+                            }
+                        }
+                    }
+                }
+                let mut s = stats.lock().unwrap();
+                *s.entry("cas_versions:stores_with_fresh_cas".into()).or_insert(0) += stores;
+                *s.entry("cas_versions:stale_cas_stores_refused".into()).or_insert(0) += stale_refused;
+                *s.entry("cas_versions:gets_matching_last_store".into()).or_insert(0) += gets;
+            }));
+        }
+        for h in ws {
+            let _ = h.join();
+        }
+        stop.store(true, Ordering::Relaxed);
+        for h in hs {
+            let _ = h.join();
+        }
+        let mut e = sh.ev.lock().unwrap();
+        e.evaluations += 1;
+        let mut st = stats.lock().unwrap().clone();
+        st.insert("cas_versions:noise_stores_on_other_keys".into(), noise_ops.load(Ordering::Relaxed));
+        e.merge_counters(&st);
+        for (v, d) in found.lock().unwrap().drain(..) {
+            e.violation(v, d);
+        }
+    }
+}
 
 fn stress(ctx: &Ctx, sh: &Shared, alpha: &[A]) {
     let rounds = ctx.n(1500, 5000);
